@@ -899,6 +899,19 @@ pub struct OvlScalar {
     #[serde(skip_serializing_if = "Option::is_none", default)]
     pub t_opt: Option<String>,
 }
+/// two lists and the text content of the element: the text is one more sibling that can stand anywhere
+#[derive(Serialize, Deserialize, Debug, PartialEq, Clone, Default)]
+#[serde(rename = "m_ovltext")]
+pub struct OvlText {
+    #[serde(rename = "@a_k", default)]
+    pub k: u8,
+    #[serde(default)]
+    pub t_a: Vec<String>,
+    #[serde(default)]
+    pub t_b: Vec<u32>,
+    #[serde(rename = "$text", default)]
+    pub t: String,
+}
 /// list items that are structs containing a child named like an outer list
 #[derive(Serialize, Deserialize, Debug, PartialEq, Clone, Default)]
 #[serde(rename = "s_item")]
@@ -1174,6 +1187,85 @@ fn gen_textfirst(r: &mut Rng) -> TextFirst {
     }
 }
 
+
+/// element choices that carry text or a struct of their own, for mixed content
+#[derive(Serialize, Deserialize, Debug, PartialEq, Clone)]
+pub enum Mixed2 {
+    #[serde(rename = "u_br")]
+    Br,
+    /// struct variant with an attribute and text content: `Hello,<x_b a_c="..">world</x_b>!`
+    #[serde(rename = "x_b")]
+    B {
+        #[serde(rename = "@a_c")]
+        c: String,
+        #[serde(rename = "$text", default)]
+        t: String,
+    },
+    /// struct variant whose only content is a primitive `$value`
+    #[serde(rename = "x_q")]
+    Q {
+        #[serde(rename = "$value", default)]
+        v: String,
+    },
+    /// newtype variant around a struct
+    #[serde(rename = "s_i")]
+    I(Inner),
+    #[serde(rename = "$text")]
+    Text(String),
+}
+/// T23 — mixed $value list whose element items have text content of their own
+#[derive(Serialize, Deserialize, Debug, PartialEq, Clone)]
+#[serde(rename = "m_mixed2")]
+pub struct HasMixed2 {
+    #[serde(rename = "@a_k")]
+    pub k: u8,
+    #[serde(rename = "$value", default)]
+    pub items: Vec<Mixed2>,
+}
+fn gen_mixed2(r: &mut Rng) -> HasMixed2 {
+    let n = gen_len(r).min(7);
+    let mut items = Vec::new();
+    for _ in 0..n {
+        let last_text = matches!(items.last(), Some(Mixed2::Text(_)));
+        let it = match r.below(6) {
+            0 => Mixed2::Br,
+            1 => Mixed2::B { c: gen_string(r, Pos::Attr), t: gen_string(r, Pos::Text) },
+            2 => Mixed2::Q { v: gen_string(r, Pos::Text) },
+            3 => Mixed2::I(gen_inner(r)),
+            _ if last_text => Mixed2::B { c: gen_string(r, Pos::Attr), t: gen_string(r, Pos::Text) },
+            _ => Mixed2::Text(gen_string(r, Pos::MixedText)),
+        };
+        items.push(it);
+    }
+    HasMixed2 { k: r.next() as u8, items }
+}
+
+
+/// T24 — named children and an optional text content (`o_`: element-only content where the text is absent)
+#[derive(Serialize, Deserialize, Debug, PartialEq, Clone)]
+#[serde(rename = "o_opttextel")]
+pub struct OptTextEl {
+    #[serde(rename = "@a_k")]
+    pub k: u8,
+    #[serde(skip_serializing_if = "Option::is_none", default)]
+    pub t_a: Option<String>,
+    #[serde(default)]
+    pub u_flag: Vec<()>,
+    #[serde(default)]
+    pub s_inner: Vec<Inner>,
+    #[serde(rename = "$text", skip_serializing_if = "Option::is_none", default)]
+    pub t: Option<String>,
+}
+fn gen_opttextel(r: &mut Rng) -> OptTextEl {
+    OptTextEl {
+        k: r.next() as u8,
+        t_a: if r.bool() { Some(gen_string(r, Pos::Text)) } else { None },
+        u_flag: (0..r.below(3)).map(|_| ()).collect(),
+        s_inner: (0..r.below(3)).map(|_| gen_inner(r)).collect(),
+        t: if r.below(3) == 0 { Some(gen_string(r, Pos::MixedText)) } else { None },
+    }
+}
+
 pub fn family() -> Vec<TypeOps> {
     vec![
         ops!(Attrs, "Attrs", gen = gen_attrs, rows = &["attribute:string", "attribute:number", "attribute:bool", "attribute:char", "attribute:unit-enum", "attribute:option-skipped", "attribute:xs-list"]),
@@ -1202,6 +1294,8 @@ pub fn family() -> Vec<TypeOps> {
         ops!(TextOpt, "TextOpt", gen = gen_textopt, rows = &["$text:option"]),
         ops!(TypedKeys, "TypedKeys", gen = gen_typedkeys, rows = &["map:bool-keys", "map:unit-enum-keys", "map:char-keys"]),
         ops!(TextFirst, "TextFirst", gen = gen_textfirst, rows = &["$text-followed-by-element-lists"]),
+        ops!(HasMixed2, "HasMixed2", gen = gen_mixed2, rows = &["$value:mixed-list-whose-elements-have-text-content"]),
+        ops!(OptTextEl, "OptTextEl", gen = gen_opttextel, rows = &["named-children-and-optional-$text", "list:elements-unit"]),
     ]
 }
 
@@ -1220,6 +1314,10 @@ pub fn ovl_family() -> Vec<(TypeOps, fn(&mut Rng, usize) -> Box<dyn Val>)> {
     vec![
         (ops!(Ovl2, "Ovl2"), |r, m| Box::new(gen_ovl2(r, m))),
         (ops!(Ovl3, "Ovl3"), |r, m| Box::new(Ovl3 { t_a: gen_ovl_strings(r, m), t_b: gen_ovl_nums(r, m), t_c: gen_ovl_strings(r, m.min(2).max(m / 2)) })),
+        (ops!(OvlText, "OvlText"), |r, m| {
+            // plain tokens: the text is never empty and never looks like markup or whitespace
+            Box::new(OvlText { k: r.next() as u8, t_a: gen_ovl_strings(r, m), t_b: gen_ovl_nums(r, m), t: format!("txt{}", r.below(100)) })
+        }),
         (ops!(OvlScalar, "OvlScalar"), |r, m| {
             Box::new(OvlScalar {
                 k: r.next() as u8,
